@@ -42,6 +42,10 @@ pub struct Cfg {
     pub punch_unsupported: bool,
     pub hash_seed: u64,
     pub read_only: bool,
+    /// > 0: priority schedule (PCT style) with this many priority change
+    /// points per concurrent batch instead of uniformly random choices
+    #[serde(default)]
+    pub pct_depth: u32,
 }
 
 impl Cfg {
@@ -93,6 +97,10 @@ pub enum Op {
     /// look at the live image and drive the allocator into a multi-slice
     /// allocation that meets fragmentation (world.rs do_alloc_stress)
     AllocStress,
+    /// write single clusters until the host file ends just short of the
+    /// range of its last refcount block: the next allocations (usually a
+    /// concurrent batch) need a new refcount block and a refcount-table update
+    FillToRefblockEnd,
 }
 
 #[derive(Serialize, Deserialize, Clone, Debug, PartialEq)]
@@ -100,6 +108,10 @@ pub enum Step {
     Seq(Op),
     /// client op lists run concurrently
     Par(Vec<Vec<Op>>),
+    /// a concurrent batch made up when it is reached, from the state of the
+    /// image then (world.rs resolve_par_fresh): a write that has to allocate
+    /// in an existing L2 table, a flush, a walk over other L2 slices
+    ParFresh { seed: u64 },
 }
 
 /// what a profile wants from the generators
@@ -154,6 +166,9 @@ pub struct GenOpts {
     /// writes (allocations that span slices and meet fragmentation)
     pub frag_pct: u32,
     pub frag_now: bool,
+    /// percent of the concurrent batches that are built around the metadata
+    /// machinery (allocating write + flush + walk over other L2 slices)
+    pub template_pct: u32,
 }
 
 impl Default for GenOpts {
@@ -191,6 +206,7 @@ impl Default for GenOpts {
             wide_l1_now: false,
             frag_pct: 6,
             frag_now: false,
+            template_pct: 20,
         }
     }
 }
@@ -494,6 +510,7 @@ pub fn gen_cfg(rng: &mut Rng, o: &GenOpts) -> Cfg {
         punch_unsupported: rng.chance(1, 5),
         hash_seed: rng.next(),
         read_only: rng.below(100) < o.read_only_pct as u64,
+        pct_depth: if o.schedule_knobs && o.par_pct > 0 { *rng.pick(&[0u32, 0, 0, 0, 2, 3]) } else { 0 },
     }
 }
 
@@ -840,7 +857,45 @@ pub fn gen_steps(rng: &mut Rng, cfg: &Cfg, o: &GenOpts) -> Vec<Step> {
             let nc = rng.range(2, o.max_clients.max(2) as u64);
             let mut clients = vec![];
             let _ = allow_racy;
-            for _ in 0..nc {
+            let template = rng.below(100) < o.template_pct as u64;
+            if template && rng.chance(1, 2) {
+                if cfg.layers[0].cluster_bits <= 10 && !cfg.read_only && rng.chance(1, 2) {
+                    steps.push(Step::Seq(Op::FillToRefblockEnd));
+                }
+                steps.push(Step::ParFresh { seed: rng.next() });
+                count += 3;
+                continue;
+            }
+            if template {
+                // a batch built around the metadata machinery: one client
+                // allocates (a write of a few clusters), one flushes, one or
+                // two touch other L2 slices (with a small cache: eviction and
+                // write-back of the allocator's slice while the flush runs)
+                let cs = cfg.cs();
+                let gcl = cfg.vsize().div_ceil(cs);
+                let bs = cfg.bs();
+                let (off, len) = g.range(rng, cfg, o.max_write_clusters.max(3));
+                clients.push(vec![Op::Write { off, len: len as u32 }]);
+                clients.push(vec![if rng.chance(1, 6) { Op::Shrink } else { Op::Flush }]);
+                let se = cfg.l2_cache.map(|(b, _)| (1u64 << b) / 8).unwrap_or(cs / 8).max(1);
+                for i in 0..rng.range(1, 2) {
+                    // one client walking over other slices: the second miss
+                    // pushes the allocator's (most recently used) slice out
+                    let mut ops = vec![];
+                    for j in 0..rng.range(1, 3) {
+                        let far = ((off / cs) + se * (1 + 3 * i + j + rng.below(2))) % gcl;
+                        let o2 = (far * cs).min(cfg.vend().saturating_sub(bs)) / bs * bs;
+                        ops.push(if rng.chance(1, 4) {
+                            Op::Write { off: o2, len: bs as u32 }
+                        } else {
+                            Op::Read { off: o2, len: bs as u32 }
+                        });
+                    }
+                    clients.push(ops);
+                }
+                count += clients.len() as u64;
+            }
+            for _ in 0..if template { 0 } else { nc } {
                 let k = rng.range(1, o.max_ops_per_client as u64);
                 let mut ops = vec![];
                 for _ in 0..k {
@@ -898,6 +953,9 @@ pub fn gen_steps(rng: &mut Rng, cfg: &Cfg, o: &GenOpts) -> Vec<Step> {
                     let at = rng.below(clients[cj].len() as u64 + 1) as usize;
                     clients[cj].insert(at, Op::Flush);
                 }
+            }
+            if cfg.layers[0].cluster_bits <= 10 && !cfg.read_only && rng.chance(1, if template { 2 } else { 6 }) {
+                steps.push(Step::Seq(Op::FillToRefblockEnd));
             }
             steps.push(Step::Par(clients));
         } else {
